@@ -12,3 +12,6 @@ def check(ctx):
         ctx.ob('golden', f'pinned-release objects [{cfg}]: {len(lines)} vectors deserialize, re-serialize to their announced length, decapsulate to the recorded secret, refresh, rekey and encapsulate',
                len(out) == len(lines) and not bad, ' ; '.join(bad[:3]) + r.stderr[-300:])
         ctx.evaluations += len(lines)
+        if bad and len(out) == len(lines):
+            i = next(k for k, o in enumerate(out) if not o.startswith('OK'))
+            vf.violation(ctx, f'object serialized by the pinned release (golden vector #{i}, {cfg} build): {out[i][:200]}', {'config': cfg, 'golden_vector': i, 'file': f'corpus/golden/{cfg}.txt', 'impl': out[i][:400], 'violations_total': len(bad)})
